@@ -1126,6 +1126,29 @@ func c14generate(r *rand.Rand, tier string, emit func(string)) {
 			emit("stat")
 		}
 	}
+	// (1b) the same without any address and without boxing (a redeclaration may reuse the slot): for every
+	//      pair of kinds, redeclare v0 (k -> k2) between two neighbours and check that the neighbours survive
+	for _, k := range c14kinds {
+		for _, k2 := range c14kinds {
+			g.reset()
+			g.decl(100, "int")
+			g.decl(0, k)
+			emit("decl 101 int64 c n 4242")
+			g.decl(102, "string")
+			g.decl(0, k2)
+			emit("read 0")
+			emit("read 101")
+			g.assign(0)
+			emit("read 0")
+			emit("read 100")
+			emit("read 101")
+			emit("read 102")
+			g.decl(0, k)
+			emit("read 0")
+			emit("read 101")
+			emit("stat")
+		}
+	}
 	// (2) random histories over a small name pool (many redeclarations and aliases)
 	nh, nops := 30, 200
 	if thorough {
